@@ -90,6 +90,20 @@ claims.update({
    ref="DESIGN.md section 4.C13"),
 })
 
+claims.update({
+ "C17": dict(
+   text="Proof of the handler propagation chain, function by function: RetryClient.Handle stores the handler and forwards it to the client that is current under the same lock hold; RetryClient.Connect installs the stored handler (value read under the lock) on the current client before calling that client's Connect; BaseClient.Handle sets exactly the handler field; BaseClient.Connect/init leave the handler field untouched (checked frame); the reader loop hands every delivered message to the handler field's value read under the lock in that iteration; the reconnect loop calls RetryClient.Connect exactly once for every successfully dialled client, after SetClient of that client.",
+   note="'No message is dropped merely because of a reconnect' as a whole-history statement is the composition of these contracts (DESIGN.md 4.C17) and is not mechanised; messages that arrive before the application registers any handler are dropped by design (handler == nil). Lock-guarded fields are arbitrary at each acquisition.",
+   ref="DESIGN.md section 4.C17"),
+})
+
+claims.update({
+ "C10": dict(
+   text="Proof of a lock/ownership discipline over every field of the shared types (BaseClient, signaller, RetryClient, reconnectClient, firstError): each field is classified (guarded by named mutexes with read/write modes, confined to the single task goroutine, atomic-only, configuration written only before the object is shared, or itself a lock); at every load and store of such a field, on every path of every function under contract and of the functions inlined into them, an obligation requires the classified protection given the mutexes held on that path; every Write on the transport stored in BaseClient.Transport requires muWrite, so the wire is a concatenation of whole packets (write() itself is under contract: it holds muWrite across all chunks); functions running in a goroutine role are called only from that role. A completeness scan reports any package function that touches shared state without being covered. Four data races were found this way, confirmed with the race detector and three repaired; one is a recorded finding (D10).",
+   note="This is a sufficient discipline for data-race freedom of the classified fields, not a proof over all interleavings: it trusts Go's mutex/atomic/go-statement happens-before, that one task goroutine exists per RetryClient and one reader per BaseClient (Connect / first SetClient run once), that closures with role task are only stored in the task/retry queues, and 'stable' fields (sig, connClosed, chTask) are treated as unchanged by the functional contracts. ServeMux and the dialer helper types are not shared types in this sense (ServeMux is documented as not safe for concurrent Handle). Objects are considered unshared until they escape the creating function.",
+   ref="DESIGN.md section 4.C10"),
+})
+
 checks = []
 for pid in ids:
     if pid not in claims:
